@@ -78,7 +78,7 @@ def cancel_rules(ck, C):
         if not some:
             # field tested directly
             for sw in T.switches_on_expr(tu, lambda e: e[0] == "discr"):
-                e = tu.expr(tu.blocks[sw]["term"]["on"])
+                e = tu.expr(tu.blocks[sw]["term"]["on"], at=sw)
                 if any(".registration" in p for r, p in tu.resolve(e[2])):
                     some += T.discr_edges(tu, sw, 1)
         bad = T.t2_all_exits(tu, [x for _, x in some], [c.bb for c in cancels]) if some else [0]
@@ -317,7 +317,7 @@ def run(ck):
         ins_ = [cs.bb for cs in rg.calls() if cs.name in ("insert", "insert_reuse") and cs.f and "TimerWheel" in cs.f["path"] and not rg.is_cleanup(cs.bb)]
         none_e = []
         for sw in T.switches_on_expr(rg, lambda e: e[0] == "discr"):
-            e = rg.expr(rg.blocks[sw]["term"]["on"])
+            e = rg.expr(rg.blocks[sw]["term"]["on"], at=sw)
             if any(".deadline" in p_ for r_, p_ in rg.resolve(e[2])):
                 none_e += T.discr_edges(rg, sw, 0)
         bad = T.t2_all_exits(rg, [0], ins_, removed_edges=none_e) if ins_ else [0]
